@@ -329,6 +329,30 @@ func tailLines(s string, n int) string {
 	return strings.Join(keep, " | ")
 }
 
+// RedirectFuzzWorkerStderr: Go's fuzz coordinator discards the stderr of its worker processes, which
+// hides the message of a fatal error (out of memory, stack overflow). When this process is such a
+// worker and VERIF_FUZZ_STDERR names a directory, fd 2 is pointed at a file there.
+func RedirectFuzzWorkerStderr() {
+	dir := os.Getenv("VERIF_FUZZ_STDERR")
+	if dir == "" {
+		return
+	}
+	isWorker := false
+	for _, a := range os.Args {
+		if strings.HasPrefix(a, "-test.fuzzworker") {
+			isWorker = true
+		}
+	}
+	if !isWorker {
+		return
+	}
+	f, err := os.OpenFile(fmt.Sprintf("%s/fuzzworker-%d.stderr", dir, os.Getpid()), os.O_CREATE|os.O_WRONLY|os.O_APPEND, 0o644)
+	if err != nil {
+		return
+	}
+	_ = syscall.Dup2(int(f.Fd()), 2)
+}
+
 // IsWorker reports whether this process was started as a worker.
 func IsWorker() bool { return os.Getenv("VERIF_WORKER") == "1" }
 
